@@ -18,6 +18,60 @@ CHECKS = {
             "explicit-state model checking of the implementation (BFS to fixpoint, reference-model oracle)", "4/C05"),
 }
 
+S_NOTE = ("Trusted: the reference model (written from the property text), the independent layout implementation, "
+          "tmpfs semantics. Bounded by the stated alphabet; closure means every history of any length over it.")
+CHECKS.update({
+    "C01": ("E+S", "model_checking",
+            "Complete product sizes (0, 1, around every multiple of both read-buffer sizes, multi-buffer) x 12 kinds of data "
+            "argument (str, Path, file stream at 4 offsets, fd-backed stream, BytesIO / BufferedReader(BytesIO) at several "
+            "offsets) x store algorithms, plus explicit-state BFS to closure in which witness pids must keep retrieving "
+            "their exact bytes after every history of calls on other pids.",
+            S_NOTE + " Byte values follow a position-dependent pattern; digest correctness for arbitrary bytes is hashlib's.",
+            "bounded-exhaustive input enumeration + explicit-state model checking of the implementation", "4/C01"),
+    "C02": ("E+S", "model_checking",
+            "All 13x13 (additional, checksum) algorithm combinations x spellings x contents, every spelling for "
+            "get_hex_digest, and BFS over histories of store_object calls with differing algorithm arguments on ONE "
+            "instance (instance attributes carried along), checking the key set and every digest of every call.",
+            S_NOTE, "bounded-exhaustive input enumeration + explicit-state model checking (one-instance histories)", "4/C02"),
+    "C03": ("S", "model_checking",
+            "BFS to closure over store/tag/delete/delete_if_invalid on pids p/q, contents A/B, cids cA/cB/never-stored; "
+            "every transition checked against the reference model; rejected re-binding must leave all reference files "
+            "byte-identical; every pid probed through retrieve_object after every call.", S_NOTE,
+            "explicit-state model checking of the implementation (BFS to fixpoint, reference-model oracle)", "4/C03"),
+    "C04": ("S", "model_checking",
+            "BFS to closure over an alphabet in which three pids share one content: tagging, deleting, "
+            "delete_if_invalid_object with wrong size / checksum / both, rejected stores, metadata calls; after every "
+            "transition every bound pid is retrieved and compared byte for byte and the object file must be present "
+            "exactly while referenced.", S_NOTE,
+            "explicit-state model checking of the implementation (BFS to fixpoint, reference-model oracle)", "4/C04"),
+    "C06": ("E", "exploration",
+            "Complete product contents x 12 algorithms x spellings x checksum kinds x size kinds x prior state of the "
+            "content x entry point; oracle computed with hashlib: valid iff size equal and checksum equal as "
+            "case-insensitive hex.", "Trusted: hashlib, the independent layout implementation. Finite product as stated in the evidence rule.",
+            "bounded-exhaustive enumeration of an input/state product against an independent oracle", "4/C06"),
+    "C07": ("T", "model_checking",
+            "Every interleaving (file-system-call, raw read/write and lock-operation granularity) of pairs of calls from a "
+            "10-call menu from four starting states, explored on the real code under a controlled scheduler with exact "
+            "state caching; each terminal observation must equal that of a sequential order of the same calls run on the "
+            "real code. Thorough: all 55 pairs x 4 states, pristine-directory variants, two-call programs and triples "
+            "with pre-emption bound 2.",
+            "Trusted: the cooperative lock/condition/flock shims (validated by the self-test against the real primitives), "
+            "the interposition layer, GIL atomicity between scheduling points. Known findings C07-R1, C07-R3 are listed "
+            "by exact observation; anything else is a VIOLATION.",
+            "stateless model checking of the implementation under a controlled scheduler (DFS with state caching, "
+            "persistent-set reduction, linearizability oracle from sequential runs of the real code)", "4/C07"),
+    "C11": ("S", "model_checking",
+            "BFS to closure over store/retrieve/delete_metadata, delete_object and store_object on pids 'ab'/'a' with formats "
+            "omitted / explicit default / 'c' / 'bc' and two document versions (one multi-buffer), checked against a "
+            "dictionary model; plus a size x argument-kind round-trip product.", S_NOTE,
+            "explicit-state model checking of the implementation (BFS to fixpoint, reference-model oracle)", "4/C11"),
+    "C19": ("S", "model_checking",
+            "For every state in the closure of a reduced alphabet (pids p/q, contents A/B) x target pid x content "
+            "(A, B, new C) x 11 validation kinds, the one-call and the stepwise procedure are run on two copies of the "
+            "state and their results and abstract post-states compared.", S_NOTE,
+            "explicit-state model checking (state closure) with a differential oracle between two procedures", "4/C19"),
+})
+
 NOT_YET = {}
 
 
@@ -56,6 +110,14 @@ def main():
             "add_only": True,
         },
         "engines": [
+            {"name": "T", "path": "hsverif/engine_t.py",
+             "serves_properties": ["C07", "C08", "C09", "C12", "C16"],
+             "kind_free_text": "thread-interleaving explorer of the real FileHashStore: controlled scheduler, scheduling "
+                               "points at file-system calls / raw I/O / lock operations, DFS with exact state caching, "
+                               "persistent-set reduction with verified footprints, linearizability oracle"},
+            {"name": "E", "path": "hsverif/checks",
+             "serves_properties": ["C01", "C02", "C06", "C14", "C15", "C17", "C18", "C20"],
+             "kind_free_text": "complete finite products of inputs / configurations against independent oracles"},
             {"name": "S", "path": "hsverif/engine_s.py",
              "serves_properties": ["C01", "C02", "C03", "C04", "C05", "C11", "C16", "C19"],
              "kind_free_text": "sequential explicit-state explorer of the real FileHashStore (BFS over call sequences, "
